@@ -215,7 +215,12 @@ func runC08(c *core.Ctx, b core.Batch) {
 						d["generated_size"], d["dynamic_size"] = og.size, od.size
 						c.Violation("paths:size:"+name, d)
 					}
-					if !bytes.Equal(og.det, od.det) {
+					if !bytes.Equal(og.det, od.det) && hasFloat32NaN(mg) {
+						// protoreflect.Value carries a float32 as a float64: the conversion quiets a
+						// signalling NaN, which the table-driven coder copies bit for bit. NaN payloads
+						// are not content (all NaNs are equal): not compared byte for byte
+						c.Count("det_bytes_not_compared_float32_nan")
+					} else if !bytes.Equal(og.det, od.det) {
 						d := detail()
 						d["generated"], d["dynamic"] = core.Hex(og.det), core.Hex(od.det)
 						c.Violation("paths:det-bytes:"+name, d)
@@ -249,7 +254,7 @@ func runC08(c *core.Ctx, b core.Batch) {
 					rec += fmt.Sprintf(" merge=%016x", core.HashStr(sg.String()))
 				}
 				rec += fmt.Sprintf(" snap=%016x init=%v clone=%016x", core.HashStr(og.snap), og.initOK, core.HashStr(og.cloneSnp))
-				if unknownFree(snapOf(mg)) {
+				if unknownFree(snapOf(mg)) && !hasFloat32NaN(mg) {
 					rec += fmt.Sprintf(" size=%d det=%016x", og.size, core.HashBytes(og.det))
 				}
 			}
@@ -318,4 +323,48 @@ func diffKeys(a, b string) string {
 		return "input"
 	}
 	return strings.Join(out, ",")
+}
+
+// hasFloat32NaN reports whether a float (32-bit) field anywhere in m holds a NaN.
+func hasFloat32NaN(m protoreflect.Message) bool {
+	found := false
+	var walk func(m protoreflect.Message, depth int)
+	isNaN := func(fd protoreflect.FieldDescriptor, v protoreflect.Value) bool {
+		return fd.Kind() == protoreflect.FloatKind && v.Float() != v.Float()
+	}
+	walk = func(m protoreflect.Message, depth int) {
+		if found || depth > 40 {
+			return
+		}
+		m.Range(func(fd protoreflect.FieldDescriptor, v protoreflect.Value) bool {
+			switch {
+			case fd.IsMap():
+				v.Map().Range(func(_ protoreflect.MapKey, mv protoreflect.Value) bool {
+					if fd.MapValue().Message() != nil {
+						walk(mv.Message(), depth+1)
+					} else if isNaN(fd.MapValue(), mv) {
+						found = true
+					}
+					return !found
+				})
+			case fd.IsList():
+				for i := 0; i < v.List().Len() && !found; i++ {
+					if fd.Message() != nil {
+						walk(v.List().Get(i).Message(), depth+1)
+					} else if isNaN(fd, v.List().Get(i)) {
+						found = true
+					}
+				}
+			case fd.Message() != nil:
+				walk(v.Message(), depth+1)
+			default:
+				if isNaN(fd, v) {
+					found = true
+				}
+			}
+			return !found
+		})
+	}
+	walk(m, 0)
+	return found
 }
